@@ -22,6 +22,39 @@ func init() {
 		if fd == nil || fd.Body == nil {
 			fail("%s: ConnectionHandler.multiplexToUpstream not found", file)
 		} else {
+			// The fact is about WHAT the handler is given (the wrapper built over the function's connection parameter),
+			// not about what that parameter is called: parameters are rendered under fixed names by position, the
+			// first one as `multiplexChannel` (the name the theorems of C01/C17 are stated over).
+			canon := bind14{}
+			pi := 0
+			if fd.Type.Params != nil {
+				for _, fld := range fd.Type.Params.List {
+					for _, nm := range fld.Names {
+						if pi == 0 {
+							canon[nm.Name] = "multiplexChannel"
+						} else {
+							canon[nm.Name] = fmt.Sprintf("param%d", pi)
+						}
+						pi++
+					}
+				}
+			}
+			var render func(e ast.Expr) string
+			render = func(e ast.Expr) string {
+				switch x := e.(type) {
+				case *ast.Ident:
+					return canon.of(x.Name)
+				case *ast.CallExpr:
+					as := make([]string, len(x.Args))
+					for i, a := range x.Args {
+						as[i] = render(a)
+					}
+					return strings.Join(strings.Fields(src(x.Fun)), "") + "(" + strings.Join(as, ",") + ")"
+				case *ast.ParenExpr:
+					return "(" + render(x.X) + ")"
+				}
+				return strings.Join(strings.Fields(src(e)), "")
+			}
 			ast.Inspect(fd.Body, func(n ast.Node) bool {
 				c, ok := n.(*ast.CallExpr)
 				if !ok {
@@ -30,7 +63,7 @@ func init() {
 				fn := src(c.Fun)
 				switch {
 				case strings.HasSuffix(fn, ".Handle") && len(c.Args) == 1:
-					handleArgs = append(handleArgs, strings.Join(strings.Fields(src(c.Args[0])), ""))
+					handleArgs = append(handleArgs, render(c.Args[0]))
 				case strings.HasSuffix(fn, ".Negotiate") || strings.HasSuffix(fn, ".NegotiateLazy"):
 					negotiate++
 				}
